@@ -498,11 +498,30 @@ func (h *History) run() {
 	if cfg.Prices > 0 {
 		acts = append(acts, 4, 4, 4, 1)
 	}
-	burst := 0
+	burst, cloneBurst := 0, false
+	massClosed := false
 	for step := 0; step < n; step++ {
 		if cfg.Large && burst == 0 && Rare(t, "burst", 7) {
 			// hundreds of directives on one day (a month-end batch import)
 			burst = rapid.SampledFrom([]int{200, 400, 700, 1200}).Draw(t, "burstLen")
+			cloneBurst = rapid.IntRange(0, 2).Draw(t, "cloneBurst") == 0
+		}
+		if burst > 0 && cloneBurst {
+			// hundreds of identical entries on one day (fares, micro-payments) that differ at most in their annotations:
+			// one long run of equal keys for every sort of the day's transactions
+			if n := len(h.ds); n > 0 && h.ds[n-1].Kind == ref.KTrx && h.ds[n-1].Date == h.day && h.ds[n-1].Accrual == nil {
+				burst--
+				prev := h.ds[n-1]
+				d := ref.Directive{Desc: prev.Desc}
+				if cfg.Perf && rapid.Bool().Draw(t, "clonePerf") {
+					d.HasPerf = true
+					if rapid.Bool().Draw(t, "clonePerfCom") {
+						d.Perf = []string{pick(t, h.coms, "clonePerfV")}
+					}
+				}
+				h.book(append([]ref.Booking{}, prev.Bookings...), d)
+				continue
+			}
 		}
 		if burst > 0 {
 			burst--
@@ -510,6 +529,11 @@ func (h *History) run() {
 			continue
 		}
 		h.advance(0)
+		if cfg.Large && cfg.Closes && !massClosed && step > n/4 && Rare(t, "massCloseDay", 5) {
+			massClosed = true
+			h.step(8)
+			continue
+		}
 		h.step(rapid.SampledFrom(acts).Draw(t, "act"))
 	}
 }
@@ -608,6 +632,38 @@ func (h *History) step(act int) {
 			bals = append(bals, ref.Balance{Account: a.name, Qty: q, Com: c})
 		}
 		h.ds = append(h.ds, ref.Directive{Kind: ref.KAssert, Date: h.day, Balances: bals})
+	case 8: // a year-end clean-up: dozens of unused accounts closed on one day
+		var cands []*acct
+		for _, a := range h.openAccs(nil) {
+			if a.accrual || a.lockUntil > h.day {
+				continue
+			}
+			zero := true
+			for k, v := range h.pos {
+				if k[0] == a.name && v.Sign() != 0 {
+					zero = false
+					break
+				}
+			}
+			if zero {
+				cands = append(cands, a)
+			}
+		}
+		if len(cands) < 36 {
+			h.step(1)
+			return
+		}
+		h.need(2)
+		k := rapid.IntRange(33, len(cands)-2).Draw(t, "massClose")
+		for _, a := range cands[:k] {
+			a.open = false
+			for key := range h.pos {
+				if key[0] == a.name {
+					delete(h.pos, key)
+				}
+			}
+			h.ds = append(h.ds, ref.Directive{Kind: ref.KClose, Date: h.day, Account: a.name})
+		}
 	case 3: // close an account whose positions are zero
 		if !cfg.Closes {
 			h.step(1)
